@@ -89,6 +89,34 @@ Section LearnSpec.
   Proof. unfold split_keys, num_iterations. now rewrite map_length, seq_length. Qed.
 End LearnSpec.
 
+(* DQN.iteration (dqn.py) with DQN.per_iteration and AbstractAlgorithmState.next inlined; collection, dqn_train and the observer are
+   arbitrary functions: the counter advances by one; the online network is the result of dqn_train on the buffer of the NEW step state with
+   the CURRENT target and the train key; the target network becomes that new online network iff the NEW count is a multiple of
+   target_update_interval and is otherwise the very same value = one step of Schedule.dqn_iter *)
+Section DqnIter.
+  Context {SS X OS BUF LOG CB SCB : Type}.
+  Variables (N interval count : nat) (collect1 : X -> SS -> kpath -> SS) (collectN : X -> SS -> list kpath -> SS)
+            (ss_buf : SS -> BUF) (ss_cb : SS -> SCB) (train : X -> OS -> BUF -> X -> kpath -> X * OS * LOG)
+            (cb_iter : CB -> Z -> SCB -> X -> OS -> kpath -> CB) (ss : SS) (pol target : X) (opt : OS) (cbs : CB) (k : kpath).
+  Notation G f := (f SS X OS BUF LOG CB SCB N interval count collect1 collectN ss_buf ss_cb train cb_iter ss pol target opt cbs k).
+
+  Theorem gen_dqniter_eq_model :
+    (0 < interval)%nat ->
+    let pol' := G (@gen_dqniter_policy) in
+    let s' := dqn_iter X (fun _ _ => pol') interval {| d_count := count; d_online := pol; d_target := target |} in
+    G (@gen_dqniter_count) = Z.of_nat (d_count X s') /\ pol' = d_online X s' /\ G (@gen_dqniter_target) = d_target X s'.
+  Proof.
+    intros H. cbv zeta. unfold gen_dqniter_count, gen_dqniter_target, dqn_iter. cbn [d_count d_online d_target].
+    repeat split; [lia|].
+    replace (Z.of_nat count + 1)%Z with (Z.of_nat (S count)) by lia.
+    rewrite <- Nat2Z.inj_mod.
+    destruct (Nat.eqb_spec (S count mod interval) 0) as [E|E].
+    - rewrite E. reflexivity.
+    - destruct (Z.eqb_spec (Z.of_nat (S count mod interval)) 0); [lia | reflexivity].
+  Qed.
+End DqnIter.
+
+Print Assumptions gen_dqniter_eq_model.
 Print Assumptions gen_learn_eq_spec.
 Print Assumptions gen_learn_iteration_count.
 Print Assumptions gen_sactrain_gating.
